@@ -11,8 +11,13 @@ import (
 
 func (r *Run) call(endpoint string, f func() *Resp) *Resp {
 	r.W.Store.TxTrace = nil
+	r.W.Store.OutsideTx = nil
 	r.writeMark = len(r.W.Store.WriteLog)
 	res := f()
+	if n := len(r.W.Store.OutsideTx); n > 0 {
+		r.probe("write-with-a-context-outside-the-open-transaction")
+		r.logf("   %d write(s) inside the open transaction used a context that does not carry it: %v", n, r.W.Store.OutsideTx)
+	}
 	if len(r.Fault.specs) > 0 && r.Fault.specs[0].Kind == "trace-only" {
 		r.logf("TRACE %s", strings.ReplaceAll(strings.Join(res.Trace, " "), ":ERR", ""))
 	}
@@ -329,6 +334,7 @@ func (r *Run) afterAuthorize(st Step, cs *ClientSpec, res *Resp, q url.Values, c
 	if has(cs.GrantTypes, "refresh_token") {
 		g.Params["had_refresh_grant_at_authorization"] = "1"
 	}
+	g.ViaPAR = st.p("via_par") != ""
 	if con.PresetIDExp > 0 {
 		g.PresetIDExp = now.Add(time.Duration(con.PresetIDExp) * time.Second)
 	}
@@ -466,6 +472,9 @@ func (r *Run) opRedeem(st Step) {
 		form.Set("audience", a)
 	}
 	if cid := st.p("client_id"); cid != "" {
+		if cid == "victim" {
+			cid = g.Client // a foreign client naming the code's owner in the body while identifying itself in the header
+		}
 		form.Set("client_id", cid)
 	}
 	basic := r.applyAuth(cs, st.A, form)
